@@ -115,8 +115,18 @@ Definition sync_peer (acc : cache) (po : peer * list arec) : cache :=
 Definition cache_sync (self other : cache) : cache := fold_left sync_peer other self.
 
 (* ---- perform_cleanup *)
+(* `now.duration_since(last_seen)`: Err for a last_seen in the future (=> expired), never a panic;
+   no SystemTime addition is involved, so a last_seen near the largest representable time is harmless *)
 Definition unexpired (cfg : config) (now : N) (r : arec) : bool :=
-  (a_seen r <=? now) && (now - a_seen r <? expiry cfg).
+  match st_duration_since now (a_seen r) with
+  | Ok d => d <? expiry cfg
+  | _ => false
+  end.
+
+(* NOT the code: the same test written with an addition (`last_seen + expiry`), which panics near the end
+   of the representable time -- kept only for `expiry_by_addition_refuted` *)
+Definition unexpired_by_addition (cfg : config) (now : N) (r : arec) : outcome bool :=
+  bind (st_add (a_seen r) (expiry cfg)) (fun expires_at => Ok ((a_seen r <=? now) && (now <? expires_at))).
 Definition keep (cfg : config) (now : N) (r : arec) : bool := reliable r && unexpired cfg now r.
 
 (* stable insertion sort by key (slice::sort_by_key is stable) *)
@@ -145,7 +155,10 @@ Definition truncate_addrs_unfixed (m : arith_mode) (cfg : config) (l : list arec
    whose last_seen is not in the future; Duration::from_secs(u64::MAX) when there is none *)
 Definition AGE_INF : N := 18446744073709551615 * 1000000000.
 Definition peer_age (now : N) (l : list arec) : N :=
-  fold_left (fun acc r => if a_seen r <=? now then N.min acc (now - a_seen r) else acc) l AGE_INF.
+  fold_left (fun acc r => match st_duration_since now (a_seen r) with      (* last_seen.elapsed() *)
+                          | Ok d => N.min acc d
+                          | _ => acc
+                          end) l AGE_INF.
 
 (* Iterator::max_by_key returns the last of equal maxima: the peer removed in one round of the loop is
    the last one (in iteration order) whose age equals the maximum age *)
